@@ -8,6 +8,11 @@
 #define _GNU_SOURCE
 #include "vh.h"
 
+/* the public per-token callback: results must not depend on whether the application installed one */
+static uint64_t cb_tokens;
+static void noop_cb(binson_parser *p, uint16_t next_state, void *ctx) { (void)p; (void)next_state; (void)ctx; cb_tokens++; }
+#define MAYBE_CB(c, r) do { if (vrn((r), 5) == 0) { (c).p->cb = noop_cb; (c).p->cb_context = NULL; vw_count("cases_with_token_callback", 1); } } while (0)
+
 /* ------------------------------------------------------------------ context -- */
 enum { OP_NEXT = 1, OP_ENTER, OP_LEAVE, OP_RAW, OP_TOWRITER, OP_FIELD, OP_FIELD_E, OP_FIELD_WRONG, OP_NEXT_E, OP_NEXT_WRONG, OP_RAW_SMALL };
 static const char *opname[] = { "?", "next", "go_into", "leave", "get_raw", "to_writer", "field", "field_ensure", "field_ensure(wrong type)", "next_ensure", "next_ensure(wrong type)", "to_writer(small dest)" };
@@ -369,6 +374,7 @@ static void case_c03(vrng *r, uint64_t caseno)
     }
     bool ok = (root->kind == K_OBJ) ? binson_parser_init_object(c.p, c.buf, c.n) : binson_parser_init_array(c.p, c.buf, c.n);
     uint64_t events = 0;
+    if (ok) MAYBE_CB(c, r);
     if (!ok) report(&c, "c03:init-rejected", "init rejected a valid document");
     else if ((vrn(r, 3) != 0 || prior_history(&c, r)) && apply_op(&c, OP_ENTER, NULL, 0, 0) && visit(&c, root, &events) && apply_op(&c, OP_LEAVE, NULL, 0, 0)) {
         if (memcmp(c.buf, c.doc.p, c.n) != 0) report(&c, "c03:input-modified", "the input buffer was modified");
@@ -431,6 +437,7 @@ static void case_walk(vrng *r, uint64_t caseno, char flavor)
     bool ascending_only = flavor == '7' && vrn(r, 3) == 0;
     uint64_t oph = 0;
     if (!ok) { report(&c, "walk:init-rejected", "init rejected a valid document"); goto out; }
+    MAYBE_CB(c, r);
     if (vrn(r, 4) == 0 && !prior_history(&c, r)) goto out;
     if (!apply_op(&c, OP_ENTER, NULL, 0, 0)) goto out;
     while (!c.m.done && steps < limit && !c.dead) {
@@ -674,6 +681,7 @@ static void case_c10(vrng *r, uint64_t caseno)
     binson_writer_init(&w, dst, c.n);
     tctx t = { c.p, &w, true, 0 };
     t.ok = binson_parser_init_object(c.p, c.buf, c.n);
+    if (t.ok) MAYBE_CB(c, r);
     if (t.ok && vrn(r, 3) == 0) t.ok = prior_history(&c, r);       /* abandoned partial walk + reset/verify first */
     t.ok = t.ok && binson_parser_go_into_object(c.p);
     binson_write_object_begin(&w);
